@@ -30,7 +30,11 @@ def run(ctx):
     rcf = ctx.rule('R-CASFRESH', 'every retry of a compare-exchange re-tests the refreshed expected value against the '
                    'sentinels the first attempt tested', minimum=0)
     ron = ctx.rule('R-ONENODE', 'a combinator callback node is registered on at most one shared input (a shared core links its subscribers through the node\'s next pointer)', minimum=4)
+    rbr = ctx.rule('R-BRIDGE', 'Share / Split hand the source they were given and the promise of the contract they make to Connect on every path', minimum=4)
     for cfg, fb in sorted(fbs.items()):
+        from rules import lib_bridge
+        if (ctx.guard(lambda: lib_bridge.check_bridges(ctx, fb, rbr)) or 0) < 4:
+            ctx.guard(lambda: ctx.broken('R-BRIDGE: Share / Split are not instantiated in %s' % cfg))
         from rules import lib_when as _lw
         if (ctx.guard(lambda: _lw.check_one_node(ctx, fb, ron)) or 0) < 2:
             ctx.guard(lambda: ctx.broken('R-ONENODE: no StaticCombinator / SingleCombinator instantiation found'))
